@@ -79,7 +79,21 @@ func (k pkConfig) String() string {
 	return s
 }
 
-func pkCfgText(scn string, k pkConfig, initPresent, repaired, emit bool, invariants bool) string {
+// pkSwitches are the design switches of PosixKey.
+type pkSwitches struct{ PublishAtomic, ReadThroughFd, AttrsBeforePublish bool }
+
+// codeAsIs says which design the code in /repo currently implements. It is part
+// of the binding: if the code stops behaving like this model, the replayed
+// behaviours differ from the model's predictions (reported as model drift) and
+// the abstract verdict still comes from the real histories.
+//   - PublishAtomic: TRUE since the fix "publish objects atomically" in /repo
+//     (tmpfile.link no longer unlinks the object before linking the new file)
+//   - AttrsBeforePublish: TRUE since the fix "PutObject stores tags with the object
+//     before publishing it"
+var codeAsIs = pkSwitches{PublishAtomic: true, AttrsBeforePublish: true}
+var codeRepaired = pkSwitches{true, true, true}
+
+func pkCfgText(scn string, k pkConfig, initPresent bool, sw pkSwitches, emit, invariants, crash bool) string {
 	b := func(v bool) string {
 		if v {
 			return "TRUE"
@@ -89,7 +103,8 @@ func pkCfgText(scn string, k pkConfig, initPresent, repaired, emit bool, invaria
 	var sb strings.Builder
 	sb.WriteString("SPECIFICATION Spec\nCONSTANTS\n")
 	fmt.Fprintf(&sb, " Scenario = %q\n Strategy = %q\n Meta = %q\n InitPresent = %s\n", scn, k.Strategy, k.Meta, b(initPresent))
-	fmt.Fprintf(&sb, " PublishAtomic = %s\n ReadThroughFd = %s\n AttrsBeforePublish = %s\n Emit = %s\n", b(repaired), b(repaired), b(repaired), b(emit))
+	fmt.Fprintf(&sb, " PublishAtomic = %s\n ReadThroughFd = %s\n AttrsBeforePublish = %s\n Emit = %s\n WithCrash = %s\n",
+		b(sw.PublishAtomic), b(sw.ReadThroughFd), b(sw.AttrsBeforePublish), b(emit), b(crash))
 	if invariants {
 		sb.WriteString("INVARIANTS PNoTornRead PNoSpuriousMissing PLinearizable\nVIEW View\n")
 	}
@@ -234,7 +249,7 @@ func (w *pkWorld) finalRead(withTags bool) linOp {
 	o.ID = "final"
 	if o.Res == "ok" && withTags {
 		tr := w.cls[0].Do(s3c.Req{Method: "GET", Path: "/" + w.bucket + "/" + w.key, Query: []s3c.KV{{K: "tagging"}}})
-		o.Tags = "mixed"
+		o.Tags = "missing"
 		if tr.OK() {
 			for wid := range pkSizes {
 				if bytes.Contains(tr.Body, []byte("<Value>"+wid+"</Value>")) {
@@ -409,7 +424,7 @@ func pkDrift(b pkBehaviour, obs map[string]linOp) string {
 	mf := b.Final
 	if (mf["name"] == "none") != (f.Res == "absent") || (f.Res == "ok" && (mf["name"] != f.Body || noneIsMixed(mf["etag"]) != f.Etag || noneIsMixed(mf["meta"]) != f.Meta)) {
 		diffs = append(diffs, fmt.Sprintf("final model=%v real=[%s %s %s %s %s]", mf, f.Res, f.Body, f.Etag, f.Meta, f.Tags))
-	} else if f.Res == "ok" && f.Tags != "none" && mf["tags"] != f.Tags {
+	} else if f.Res == "ok" && f.Tags != "none" && mf["tags"] != f.Tags && !(mf["tags"] == "none" && f.Tags == "missing") {
 		diffs = append(diffs, fmt.Sprintf("final.tags model=%s real=%s", mf["tags"], f.Tags))
 	}
 	sort.Strings(diffs)
@@ -443,13 +458,17 @@ func c05Fingerprints(class string, culprits []map[string]string, l linLine) ([]s
 					atoms["mixed-body"] = true
 					continue
 				}
-				if o.Len != "none" && o.Len != o.Body {
+				ref := o.Body
+				if ref == "none" { // no body observed (a part read through ListParts)
+					ref = o.Len
+				}
+				if o.Len != "none" && o.Len != ref {
 					atoms["stat"] = true
 				}
-				if (o.Etag != "none" && o.Etag != o.Body) || (o.Meta != "none" && o.Meta != o.Body) {
+				if (o.Etag != "none" && o.Etag != ref) || (o.Meta != "none" && o.Meta != ref) {
 					atoms["attrs"] = true
 				}
-				if o.Tags != "none" && o.Tags != o.Body {
+				if o.Tags != "none" && o.Tags != ref {
 					atoms["posttag"] = true
 				}
 				if !o.Full && o.Len == o.Body {
@@ -485,9 +504,12 @@ func C05(c *core.Ctx, replay string) {
 		exhaustive  bool
 		sample      int
 	}
+	// quick: every interleaving of PUT||GET (first configuration), samples of the rest;
+	// thorough: every interleaving of every pair, large samples of the triples
+	q := !c.Thorough()
 	plans := []scnPlan{
-		{"put_get", true, true, 0}, {"putT_get", true, true, 0}, {"put_del", true, true, 0}, {"del_get", true, true, 0},
-		{"put_put", true, true, 0}, {"put_get", false, true, 0},
+		{"put_get", true, true, 0}, {"putT_get", true, !q, 120}, {"put_del", true, !q, 120}, {"del_get", true, !q, 60},
+		{"put_put", true, !q, 120}, {"put_get", false, !q, 60},
 		{"put_put_get", true, false, c.Pick(60, 600)}, {"put_del_get", true, false, c.Pick(60, 600)},
 		{"putT_putT_get", true, false, c.Pick(40, 400)}, {"put_get_get", true, false, c.Pick(30, 300)},
 	}
@@ -540,13 +562,17 @@ func C05(c *core.Ctx, replay string) {
 			if replayLine != nil && replayLine.Scenario != pl.name {
 				continue
 			}
-			if ci > 0 && !c.Thorough() && (!pl.exhaustive || pl.name == "put_put") {
-				continue // quick: the sampled triples and the large pair only on the first configuration
+			if ci > 0 && q {
+				// quick: on the second configuration only sampled PUT||GET, PUT||DELETE and one triple
+				if !(pl.initPresent && (pl.name == "put_get" || pl.name == "put_del" || pl.name == "put_put_get")) {
+					continue
+				}
+				pl.exhaustive, pl.sample = false, 150
 			}
 			// (1) the repaired design satisfies the properties (xattr store only: the
 			// sidecar store has no descriptor-based reads to repair it with)
 			if k.Meta == "xattr" && !k.TwoProc {
-				res, err := tlc.Run(c.Scratch, tlc.Opts{Module: "PosixKey", CfgText: pkCfgText(pl.name, k, pl.initPresent, true, false, true), Workers: 4})
+				res, err := tlc.Run(c.Scratch, tlc.Opts{Module: "PosixKey", CfgText: pkCfgText(pl.name, k, pl.initPresent, codeRepaired, false, true, false), Workers: 4})
 				if err != nil || !res.OK {
 					c.Inconclusive("PosixKey repaired design %s/%v does not satisfy the properties (spec bug): %v %v", pl.name, k, err, res.MustOK())
 					w.Close()
@@ -561,7 +587,7 @@ func C05(c *core.Ctx, replay string) {
 			if replayLine != nil {
 				behs = []pkBehaviour{{Sched: replayLine.Sched}}
 			} else {
-				o := tlc.Opts{Module: "PosixKey", CfgText: pkCfgText(pl.name, k, pl.initPresent, false, true, false), Workers: 1}
+				o := tlc.Opts{Module: "PosixKey", CfgText: pkCfgText(pl.name, k, pl.initPresent, codeAsIs, true, false, false), Workers: 1}
 				if !pl.exhaustive {
 					o.Simulate = fmt.Sprintf("num=%d", pl.sample)
 					o.Depth = 40
